@@ -182,6 +182,7 @@ func (x *Exec) fallible(op string, p Str) (Iface, bool) {
 		if x.c.Branch(x.c.st.Eq(fs.faultAt, x.intConst(int64(fs.opCount)))) {
 			fs.faulted = true
 			fs.opLog = append(fs.opLog, "FAULT@"+op+" "+p.show())
+			x.c.notes = append(x.c.notes, fmt.Sprintf("fault: call #%d %s %s fails", fs.opCount, op, p.show()))
 			return x.pathErr(op, p, "EIO"), true
 		}
 	}
@@ -202,6 +203,7 @@ func (x *Exec) mutated(op string, p Str) {
 		if x.c.Branch(x.c.st.Eq(fs.crashAt, x.intConst(int64(fs.mutCount)))) {
 			fs.crashed = true
 			fs.mutLog = append(fs.mutLog, "CRASH after "+op+" "+p.show())
+			x.c.notes = append(x.c.notes, fmt.Sprintf("crash: killed right after modification #%d %s %s", fs.mutCount, op, p.show()))
 			panic(procCrash{})
 		}
 	}
